@@ -176,6 +176,9 @@ func (g *genC18) Block(w *World, b int) Block {
 		}
 	}
 	blk.Steps = g.net.Apply(rng, b, len(w.nodes), steps)
+	if len(w.nodes) == 1 && rng.Chance(1, 50) {
+		blk.Reimport = true // restart of the whole chain from its own exported genesis: every inbox must carry over unchanged
+	}
 	return blk
 }
 
@@ -197,6 +200,7 @@ type oracleC18 struct {
 	preTo   []string   // per message: resolved target of a create
 	preOK   []bool
 	preBlk  [][]string // per message: resolved block targets
+	restarts int       // restarts from export seen so far
 }
 
 func (o *oracleC18) Start(w *World) { o.inbox = map[string][]inboxEntry{}; o.blocked = map[string]bool{} }
@@ -377,7 +381,28 @@ func (o *oracleC18) AfterStep(w *World, st *Step, msgs []sdk.Msg, res *abci.Resp
 	o.compare(w, kind)
 }
 
-func (o *oracleC18) AfterBegin(w *World, _ *abci.ResponseBeginBlock) { o.compare(w, "begin-block") }
+func (o *oracleC18) AfterBegin(w *World, _ *abci.ResponseBeginBlock) {
+	if n := w.res.Faults["restart_from_export"]; n != o.restarts {
+		// The chain continues on a node initialised from its own export. The export is known to drop
+		// block-list entries (C19 known finding, kv-lost:notification block-list entry), so the block
+		// model is re-read from the chain; the inboxes are NOT relaxed: every entry must have
+		// carried over and nothing may have appeared.
+		o.restarts = n
+		nk, ctx := w.node().app.NotificationsKeeper, w.Ctx()
+		for _, a := range w.accts {
+			for _, b := range w.accts {
+				k := a.Bech + "|" + b.Bech
+				if o.blocked[k] && !nk.IsBlocked(ctx, a.Bech, b.Bech) {
+					delete(o.blocked, k)
+					w.Probe("block_entry_lost_by_export(known C19)")
+				}
+			}
+		}
+		o.compare(w, "restart-from-export")
+		return
+	}
+	o.compare(w, "begin-block")
+}
 
 func init() {
 	register(&Property{
